@@ -466,6 +466,39 @@ def split_unknown_tuple_assigns(fn, known_sigs, known_names=frozenset()):
     return n
 
 
+def merge_forwarded_results(fn, known_sigs, known_names=frozenset()):
+    """`a, b = f(...)` followed directly by `X = a` and `Y = b` (a, b locals the reference tree does not have, bound and read
+    only there) is the multiple assignment `X, Y = f(...)`: the call is evaluated first and the stores happen in the same
+    order either way."""
+    sg, _ = signatures(fn)
+    stores, loads = {}, {}
+    for n in ast.walk(fn):
+        if isinstance(n, ast.Name):
+            (loads if isinstance(n.ctx, ast.Load) else stores).setdefault(n.id, []).append(n)
+    n_merged = 0
+    for body, loops in _blocks(fn):
+        i = 0
+        while i < len(body):
+            st = body[i]
+            if isinstance(st, ast.Assign) and len(st.targets) == 1 and isinstance(st.targets[0], ast.Tuple) \
+                    and all(isinstance(e, ast.Name) for e in st.targets[0].elts) and isinstance(st.value, ast.Call):
+                names = [e.id for e in st.targets[0].elts]
+                k = len(names)
+                nxt = body[i + 1:i + 1 + k]
+                if len(nxt) == k and all(x in sg and sg[x][0] not in known_sigs and x not in known_names
+                                         and len(stores.get(x, [])) == 1 and len(loads.get(x, [])) == 1 for x in names) \
+                        and all(isinstance(s2, ast.Assign) and len(s2.targets) == 1 and isinstance(s2.value, ast.Name)
+                                and s2.value.id == x and isinstance(s2.targets[0], (ast.Attribute, ast.Subscript, ast.Name))
+                                for s2, x in zip(nxt, names)):
+                    new_t = ast.Tuple(elts=[s2.targets[0] for s2 in nxt], ctx=ast.Store())
+                    body[i:i + 1 + k] = [ast.copy_location(ast.Assign(targets=[new_t], value=st.value), st)]
+                    n_merged += 1
+            i += 1
+    if n_merged:
+        ast.fix_missing_locations(fn)
+    return n_merged
+
+
 def desugar_unknown_enumerate(fn, known_sigs):
     """`for i, x in enumerate(A):` whose element variable x has no counterpart in the reference tree becomes the index loop
     `for i in range(len(A)):` with every read of x replaced by `A[i]`, provided A is a plain name / attribute chain that the
@@ -595,6 +628,7 @@ def normalise(rel, tree, kwnames=frozenset()):
             applied.append((qual, dict(pm)))
         known = {d for d, k, x in ref['locals']}
         split_unknown_tuple_assigns(fn, known, {x for d, k, x in ref['locals']})
+        merge_forwarded_results(fn, known, {x for d, k, x in ref['locals']})
         en = desugar_unknown_enumerate(fn, known)
         if en:
             ast.fix_missing_locations(fn)
